@@ -618,7 +618,10 @@ def _execute(trace, cfg, clients, res, levels=('WARNING', 'WARNING')):
     ref_after = ref_world.digests()
     for op_id, val in reference.items():
         if isinstance(val, list) and val[:1] == ['INVARIANT-BROKEN']:
-            res.violate('process', val[1], op_id=op_id, **val[2])
+            d_ = val[2]
+            if isinstance(d_, list) and d_[:1] == ['MAP']:
+                d_ = {str(k_): v_ for k_, v_ in d_[1]}       # canonical form of the detail mapping
+            res.violate('process', val[1], op_id=op_id, **(d_ if isinstance(d_, dict) else {'detail': d_}))
             break
 
     lg.setLevel(getattr(logging, levels[1]))
